@@ -304,7 +304,7 @@ func TestC18(t *testing.T) {
 
 	chunkSizes := []int{64, 128, 256, 512, 1024, 4096}
 
-	rt.Check(t, rec, "sequential", 3000, 30000, func(t *rapid.T) {
+	rt.Check(t, rec, "sequential", 3000, 20000, func(t *rapid.T) {
 		chunk := gen.Pick(t, "chunk", chunkSizes)
 		s := stor.HeapStor(chunk)
 		n := rapid.IntRange(1, 80).Draw(t, "n")
@@ -346,7 +346,7 @@ func TestC18(t *testing.T) {
 		rec.LabelN("seq_chunk_crossings", cross)
 	})
 
-	rt.Check(t, rec, "concurrent", 300, 5000, func(t *rapid.T) {
+	rt.Check(t, rec, "concurrent", 300, 2000, func(t *rapid.T) {
 		chunk := gen.Pick(t, "chunk", chunkSizes)
 		ng := 2 + gen.Uniform(t, "ng", 15)
 		maxLen := gen.Pick(t, "maxLen", []int{8, 25, 60})
@@ -416,7 +416,7 @@ func TestC18(t *testing.T) {
 func c18Mmap(t *testing.T, rec *ev.Rec) {
 	const mchunk = 64 * 1024 * 1024
 	run := 0
-	rt.Check(t, rec, "mmap", 2, 12, func(t *rapid.T) {
+	rt.Check(t, rec, "mmap", 2, 6, func(t *rapid.T) {
 		run++
 		file := fmt.Sprintf("%s/c18_%d_%d.tmp", os.TempDir(), os.Getpid(), run)
 		s, err := stor.MmapStor(file, stor.Create)
